@@ -207,6 +207,7 @@ func init() {
 		wireOneByteEndian(w, wc, r, "C01")
 		wireListEndianUnconditional(w, wc, r, "C01")
 		wireSequenceFrame(w, r, "C01", map[string]bool{"Field": true})
+		nameKeyedSetOverInline(w, r, "C01", func(fn *ssa.Function) bool { return isGeneratorFunc(fn) && recvNamedCore(fn) != "LuaWspGenerator" }, "a generator remembers the packets it has written under their names and consults that set for inline objects too: of two inline objects that share a name (or an inline object named like a declared packet) only the first is emitted, and the members of the other are encoded with its layout")
 		// what an encoder emits must not depend on which targets ran before it: no generator writes into the model they share
 		wireModelFrame(w, r, "C01", frameWire, nil, map[string]bool{"Field": true, "MatchPair": true, "Packet": true}, "a generator rewrites the part of the shared model the encoders are derived from: what the targets generated after it put on the wire depends on which targets ran before")
 		attributeIsolation(w, r, "C01")
@@ -255,6 +256,7 @@ func init() {
 		wirePadSpellings(w, wc, r)
 		wireTables(w, r, "C03")
 		wireSequenceFrame(w, r, "C03", map[string]bool{"Field": true, "MatchPair": true})
+		nameKeyedSetOverInline(w, r, "C03", func(fn *ssa.Function) bool { return isGeneratorFunc(fn) && recvNamedCore(fn) != "LuaWspGenerator" }, "a generator remembers the packets it has written under their names and consults that set for inline objects too: of two inline objects that share a name (or an inline object named like a declared packet) only the first is emitted, and the members of the other are encoded with its layout")
 		wireModelFrame(w, r, "C03", frameWire, nil, nil, "a generator rewrites the part of the shared model the codecs are derived from: the targets generated before and after it disagree on the wire")
 		wireAssumptions(r)
 	})
@@ -315,6 +317,7 @@ func init() {
 		wireBeColumn(wc, r, "C15")
 		// the size of a checksum field comes from its resolved type, not from the type as it was spelled (uint32 has no table row)
 		wireRawType(w, r, "C15", "CheckSumFieldAttribute.Type")
+		nameKeyedSetOverInline(w, r, "C15", func(fn *ssa.Function) bool { return recvNamedCore(fn) == "LuaWspGenerator" }, "the dissector emitter remembers packets under their names and consults that set for inline objects too: of two inline objects that share a name only the first gets its dissector / its place in the order")
 		wireModelFrame(w, r, "C15", framePackets, nil, map[string]bool{"Packet": true, "Field": true}, "a generator rewrites the packet list / a field list in the shared model: a packet whose slot was overwritten loses its dissector function although it is still called")
 		wireEveryMatchField(w, wc, r, "C15", []string{"lua"})
 		wireEmitOnceKeys(w, wc, r, "C15")
